@@ -340,38 +340,66 @@ def bisim(a, b, stats, label_a=None, label_b=None, alphabet_hi=0x10FFFF, skip_sy
                 pairs.append((p2, q2))
         if len(pairs) > 20000:
             return {'kind': 'relation too large'}
-    # liveness: a pair (state, DEAD) is fine if the live side cannot reach acceptance; keep it in R and let labels decide
-    # solver step: exists index k, symbol c: labels differ or successor pair not in R
-    k = z3.BitVec('k', 16)
-    c = z3.BitVec('c', CW)
-    P = z3.BitVecVal(DEADV, SW)
-    Q = z3.BitVecVal(DEADV, SW)
-    lab_bad = z3.BoolVal(False)
-    for idx in range(len(pairs) - 1, -1, -1):
-        p, q = pairs[idx]
-        P = z3.If(k == idx, z3.BitVecVal(DEADV if p is None else p, SW), P)
-        Q = z3.If(k == idx, z3.BitVecVal(DEADV if q is None else q, SW), Q)
-        lp = la(p) if p is not None else False
-        lq = lb(q) if q is not None else False
-        if lp != lq:
-            lab_bad = z3.Or(lab_bad, k == idx)
-    P2 = delta_expr(a, P, c)
-    Q2 = delta_expr(b, Q, c)
-    inR = z3.And(P2 == DEADV, Q2 == DEADV)
+    # solver step: exists index k, symbol c: labels differ or successor pair not in R.
+    # Large relations are discharged range by range (each query mentions only its own pairs on the left).
     bya = {}
     for p, q in pairs:
         bya.setdefault(DEADV if p is None else p, []).append(DEADV if q is None else q)
-    terms = [inR]
-    for p, qs in bya.items():
-        terms.append(z3.And(P2 == p, z3.Or([Q2 == q for q in qs])))
-    inR = z3.Or(terms)
-    s = new_solver()
-    s.add(z3.ULT(k, len(pairs)))
-    s.add(z3.ULE(c, alphabet_hi))
-    if skip_symbol_zero:
-        s.add(c != 0)
-    s.add(z3.Or(lab_bad, z3.Not(inR)))
-    r = check(s, stats)
+    k = z3.BitVec('k', 16)
+    c = z3.BitVec('c', CW)
+
+    def step_solver(lo, hi):
+        P = z3.BitVecVal(DEADV, SW)
+        Q = z3.BitVecVal(DEADV, SW)
+        lab_bad = z3.BoolVal(False)
+        for idx in range(hi - 1, lo - 1, -1):
+            p, q = pairs[idx]
+            P = z3.If(k == idx, z3.BitVecVal(DEADV if p is None else p, SW), P)
+            Q = z3.If(k == idx, z3.BitVecVal(DEADV if q is None else q, SW), Q)
+            lp = la(p) if p is not None else False
+            lq = lb(q) if q is not None else False
+            if lp != lq:
+                lab_bad = z3.Or(lab_bad, k == idx)
+        P2 = delta_expr(a, P, c)
+        Q2 = delta_expr(b, Q, c)
+        terms = [z3.And(P2 == DEADV, Q2 == DEADV)]
+        for p, qs in bya.items():
+            terms.append(z3.And(P2 == p, z3.Or([Q2 == q for q in qs])))
+        inR = z3.Or(terms)
+        s = new_solver()
+        s.add(z3.UGE(k, lo), z3.ULT(k, hi))
+        s.add(z3.ULE(c, alphabet_hi))
+        if skip_symbol_zero:
+            s.add(c != 0)
+        s.add(z3.Or(lab_bad, z3.Not(inR)))
+        return s
+
+    def discharge(lo, hi):
+        """unsat / (sat, solver) / unknown over pairs[lo:hi], splitting on a timeout"""
+        s = step_solver(lo, hi)
+        r = check(s, stats)
+        if r == z3.sat:
+            return r, s
+        if r == z3.unsat or hi - lo <= 1:
+            return r, None
+        mid = (lo + hi) // 2
+        r1, s1 = discharge(lo, mid)
+        if r1 == z3.sat:
+            return r1, s1
+        r2, s2 = discharge(mid, hi)
+        if r2 == z3.sat:
+            return r2, s2
+        return (z3.unsat if r1 == z3.unsat and r2 == z3.unsat else z3.unknown), None
+
+    CH = 512
+    r, s = z3.unsat, None
+    for lo in range(0, len(pairs), CH):
+        rc, sc = discharge(lo, min(lo + CH, len(pairs)))
+        if rc == z3.sat:
+            r, s = rc, sc
+            break
+        if rc != z3.unsat:
+            r = rc
     if r == z3.unsat:
         return None
     if r != z3.sat:
